@@ -1,0 +1,60 @@
+//go:build verif
+
+// Contracts for the deductive verifier in /verif (govc): what the display
+// limits assume of the chunks they cut (C22). Comment-only file, compiled only
+// with -tags verif.
+
+package index
+
+// limitChunkMatches cuts Ranges and SymbolInfo to the same length and relies
+// on "when non-nil, SymbolInfo has the same length as Ranges" (okSyms). The
+// producers of SymbolInfo establish it: per line, scoreLine returns nil or one
+// slot per candidate; per chunk, scoreChunk returns nil or one slot per
+// candidate of the chunk (the ranges of a chunk are its candidates).
+// For these length facts the line lookups are opaque (their own contracts,
+// which need a well-formed newline table, are C03's).
+//@ func index.(newlines).atOffset
+//@   trusted
+//@   flag only_for=index.(*contentProvider).score
+//@   assigns nothing
+//@ func index.(newlines).lineStart
+//@   trusted
+//@   flag only_for=index.(*contentProvider).score
+//@   assigns nothing
+
+// newlines() caches the newline table in the provider; it writes nothing else
+// (assumed frame).
+//@ func index.(*contentProvider).newlines
+//@   trusted
+//@   flag only_for=index.(*contentProvider).score
+//@   assigns p._nl, p._nlBuf, p.err, p.stats.ContentBytesLoaded
+
+//@ func index.(*contentProvider).scoreLineBM25
+//@   may_panic
+//@   loop 1:
+//@     invariant true
+//@   loop 2:
+//@     invariant symbolInfo == nil || len(symbolInfo) == len(ms)
+//@   ensures result1 == nil || len(result1) == len(ms)
+
+//@ func index.(*contentProvider).scoreLine
+//@   may_panic
+//@   loop 1:
+//@     invariant symbolInfo == nil || len(symbolInfo) == len(ms)
+//@   ensures result1 == nil || len(result1) == len(ms)
+
+// (the per-line results are copied to the line's position by the closure
+// scoreChunk$1; its frame: the chunk's table only)
+//@ func index.(*contentProvider).scoreChunk$1
+//@   may_panic
+//@   requires symbolInfo == nil || len(symbolInfo) == len(ms)
+//@   ensures symbolInfo == nil || len(symbolInfo) == len(ms)
+//@   ensures old(symbolInfo) != nil ==> len(symbolInfo) == old(len(symbolInfo))
+//@   assigns deref(addr(symbolInfo)), symbolInfo[*]
+
+//@ func index.(*contentProvider).scoreChunk
+//@   may_panic
+//@   loop 1:
+//@     invariant ms == old(ms)
+//@     invariant symbolInfo == nil || len(symbolInfo) == len(ms)
+//@   ensures result1 == nil || len(result1) == len(ms)
